@@ -155,7 +155,7 @@ PROPS["C10"] = {
 PROPS["C12"] = {
     "technique": 'Lean 4 proof of the closed form and of trip-count soundness against reference loop semantics + natively executed instrumented twin loops',
     "also": ["C01"],   # the shared canon correspondence suite tags its violations C01
-    "suites": [{"name": "loops", "quick": 150, "thorough": 3000, "timeout": 3000}, {"name": "canon", "timeout": 3000}],
+    "suites": [{"name": "loops", "quick": 400, "thorough": 4000, "timeout": 3000}, {"name": "canon", "timeout": 3000}],
     "lean_modules": ["SfwModel.Props.C12", "SfwModel.Props.C12IV", "SfwModel.Props.C12Wrap"],
     "required_theorems": ["C12_closed_form", "C12_closed_form_mod_width", "C12_negate_sound", "C12_flags_sound_left",
                           "C12_flags_sound_right", "C12_terminates", "C12_trip_count_sound", "C12_runs_unique",
